@@ -44,7 +44,8 @@ Section Refine.
   Variable names_of : hash -> list name.
 
   Definition conc (c : mcert) : cert :=
-    Cert (eh (cid c)) (map en (cnames c)) (cman c) [] [] 0%Z [].
+    {| c_hash := eh (cid c); c_names := map en (cnames c); c_managed := cman c;
+       c_issuer := []; c_tags := []; c_ocsp := 0%Z; c_ari := [] |}.
   (** the certificate has the names its identity determines (C05's WF has the Maintain side of
       this: equal identities, equal certificates) *)
   Definition ok (c : mcert) : Prop := names_of (eh (cid c)) = map en (cnames c).
@@ -86,12 +87,12 @@ Section Refine.
     unfold add_cert, Maintain.Model.cache_add. rewrite (has_id_amem cap l s (cid c) HR).
     change (c_hash (conc c)) with (eh (cid c)).
     destruct (amem (eh (cid c)) (cache s)) eqn:E.
-    - apply amem_alookup in E. destruct E as [e He]. rewrite He. cbn [conc c_tags is_nil]. exact Hm.
+    - apply amem_alookup in E. destruct E as [e He]. rewrite He, tags_guard_eq. cbn [conc c_tags is_nil negb]. exact Hm.
     - pose proof E as E'. apply amem_false_alookup in E'. rewrite E', Hcap. cbn [cache].
       unfold ainsert. rewrite E. rewrite !map_app, Hm. reflexivity.
   Qed.
   Theorem refine_add l s c v : R 0 l s -> ok c -> R 0 (m_add c l) (add_cert 0 (conc c) v s).
-  Proof. intros HR Hok. apply refine_add_below_capacity; [exact HR | exact Hok | reflexivity]. Qed.
+  Proof. intros HR Hok. apply refine_add_below_capacity; [exact HR | exact Hok | rewrite at_capacity_eq; reflexivity]. Qed.
 
   Lemma map_snd_adelete (h : hash) (m : amap cert) :
     (forall k c, In (k, c) m -> c_hash c = k) ->
@@ -258,7 +259,9 @@ Definition eh0 (i : nat) : hash := [N.of_nat (S i)].
 Definition en0 (i : nat) : name := [N.of_nat i].
 Definition names_of0 (h : hash) : list name :=
   match h with [k] => [[N.pred k]] | _ => [] end.
-Definition mc (i : nat) : mcert := Maintain.Model.Cert i i [] false true.
+Definition mc (i : nat) : mcert :=
+  {| Maintain.Model.cid := i; Maintain.Model.chead := i; Maintain.Model.crest := [];
+     Maintain.Model.cdue := false; Maintain.Model.cman := true |}.
 
 Theorem capacity_breaks_refinement_refuted :
   exists (l : list mcert) (s : state) (c : mcert) (v : option hash),
